@@ -307,6 +307,21 @@ func modelKind(k string) string {
 	return k
 }
 
+// rejected: the configuration retrieval is answered with a configuration the parser of the code
+// rejects (sim.go rejectedConfig).  Only at the retrieval commands.  (HTTP backends: an undecodable
+// configuration answer is kind `malformed` at `get config` / the NSX GETs.)
+func retrievalLine(backend, l string) bool {
+	switch backend {
+	case "ASA":
+		return l == "write term"
+	case "IOS":
+		return l == "sh run"
+	case "Linux":
+		return l == "ip route show"
+	}
+	return false
+}
+
 func slowKind(k string) bool { return k == "silence" || k == "truncated" || k == "question" }
 
 // ---------------------------------------------------------------- main run
@@ -397,6 +412,11 @@ func run(ctx *Ctx) *Result {
 					continue // a timeout costs 1-3 s: every third position in the quick tier
 				}
 				cases = append(cases, CaseIn{Scen: s, Tool: tools[(pos+ki+i)%len(tools)], FaultPos: pos, FaultKind: k})
+			}
+			if pos >= 1 && pos <= len(blOut[i].Lines) && retrievalLine(s.Backend, blOut[i].Lines[pos-1]) {
+				for _, t := range tools {
+					cases = append(cases, CaseIn{Scen: s, Tool: t, FaultPos: pos, FaultKind: "rejected"})
+				}
 			}
 		}
 	}
